@@ -2,6 +2,7 @@ package main
 
 import (
 	"fmt"
+	"strings"
 
 	jwt "github.com/nats-io/jwt/v2"
 	v1 "github.com/nats-io/jwt/v2/v1compat"
@@ -158,7 +159,11 @@ func runC08(c *Ctx) {
 					us := jwt.NewUserScope()
 					us.Key = K2
 					us.Role = "r"
-					ac.SigningKeys.AddScopedSigner(us)
+					if dress == "plain" {
+						ac.SigningKeys.AddScopedSigner(us)
+					} else {
+						ac.SigningKeys.AddScopedSigner(*us) // held by value: a UserScope value is a Scope too
+					}
 				}
 				// nothing else the account holds changes the answer
 				switch dress {
@@ -171,6 +176,7 @@ func runC08(c *Ctx) {
 					ac.Limits.Conn, ac.Limits.Exports = 5, 3
 					ac.Tags.Add("t")
 				}
+				keysBefore := ac.SigningKeys.Keys()
 				if roundTrip {
 					tok, err := ac.Encode(akp)
 					if err != nil {
@@ -182,6 +188,14 @@ func runC08(c *Ctx) {
 					}
 				}
 				keys := ac.SigningKeys.Keys()
+				// the account that comes back from its own token signs with the same keys
+				sortStrings(keysBefore)
+				ks := append([]string{}, keys...)
+				sortStrings(ks)
+				if strings.Join(ks, ",") != strings.Join(keysBefore, ",") {
+					c.violation("an account's signing keys differ after an encode/decode round trip (so what it reports having signed differs)",
+						map[string]interface{}{"entity": "account", "account_also_holds": dress, "keys_before": len(keysBefore), "keys_after": len(ks)})
+				}
 				c.sum.Evaluations++
 				c.sum.ImplChecks++
 				if ac.DidSign(nil) {
